@@ -36,7 +36,7 @@ func checkC13(c *Ctx) {
 		ExtraTypes: func(s *pgen.Std) []*pgen.Type {
 			return append(commonExtras(s), s.SCi, s.SCv, s.SD, pgen.Ptr(s.SD), pgen.Slice(s.SD), pgen.Array(2, s.SD), pgen.Map(pgen.B("string"), s.SD))
 		},
-		Forms: []string{"top"}, QuickDeep: 50, QuickRand: 16, ThorRand: 300, BatchSize: tierN(c, 22, 10),
+		Forms: []string{"top"}, QuickDeep: 50, QuickRand: 16, ThorRand: 300, BatchSize: 22,
 		KeepShape: func(t *pgen.Type) bool { return behaviouralShape(t) },
 		Ops: func(t *pgen.Type, form string) []string {
 			var ops []string
@@ -76,7 +76,7 @@ func checkC14(c *Ctx) {
 	c.Run.Rule = "items = supported element types (==-comparable and not); per element type lists built from a boundary-biased pool (nil, empty, singletons, duplicates, Equal-but-not-identical copies, strings colliding under the 31-fold hash, nil elements, random lists up to 40) and pairs of such lists. Reference list/set model parameterised by the DERIVED Equal of the same package: Contains iff some element is Equal; Unique pairwise non-Equal, covering, nothing invented, first occurrences in order for non-comparable elements; Set/Union/Intersect on maps exact key sets; on lists: first list verbatim then new items of the second in order / subsequence of the first consisting of the items present in the second; Filter/TakeWhile/All/Any against the textbook result with 6 predicates (2 of them stateful) whose call log must be exactly the expected prefix of the input in order. distinct_nontrivial = distinct (element type shape, helper, list class)"
 	c.Run.Assume = []string{"membership is judged by the derived Equal of the same package (C02 decides whether that one is right); the structural reference is a recorded cross-check"}
 	c.Run.Floor = 40
-	sel := shapeSel{ExtraTypes: commonExtras, Forms: []string{"top"}, QuickDeep: 50, QuickRand: 16, ThorRand: 120, BatchSize: tierN(c, 22, 10),
+	sel := shapeSel{ExtraTypes: commonExtras, Forms: []string{"top"}, QuickDeep: 50, QuickRand: 16, ThorRand: 120, BatchSize: 22,
 		KeepShape: func(t *pgen.Type) bool { return behaviouralShape(t) && !containsCustom(t) }}
 	batches := c.buildTypeBatchesMulti(sel, func(t *pgen.Type) [][]string {
 		ops := []string{"equal", "contains", "unique", "union", "intersect", "filter", "takewhile", "all", "any"}
